@@ -37,7 +37,7 @@ CHECKS = {
  "C15": ("model_checking", "6 C15",
          "TLC-generated RDF 1.1 streams (reference encoder with arbitrary legal choices; PyWriter behaviours through the real serializers) go through all six parse entry points: flat = concat(grouped) = to_graph within an integration and rdflib = generic term for term, "
          "with the TLC-computed denotation as arbiter (language tags and datatypes are compared exactly between the integrations); corresponding generic/rdflib statement iterators with equal options must serialize to identical bytes (default-graph identifiers equal to, not identical with, rdflib's constant).",
-         "differential replay of TLC-generated behaviours (JellyProducer, PyWriter) through both integrations, arbitrated by the TLA+ denotation"),
+         "differential replay of TLC-generated behaviours (JellyProducer, PyWriter) through both integrations, arbitrated by the TLA+ denotation; TLC enumeration of the usage lattice (spec/PyUsage.tla) replayed on the parsers"),
  "C16": ("fault_enumeration", "6 C16",
          "Reader state graph: for every reachable reader state of tiny universes TLC prints every catalogued illegal next row (confirmed invalid by the TLA+ reader); each is applied to a real Decoder (generic and rdflib adapters) brought into that state and must raise. "
          "One catalogued violation (12 classes) is injected by the producer model after FaultAt rows of an arbitrary legal stream; only rows the Tier-1 reader rejects at that very row qualify. Both integrations' flat parsers are drained item by item: "
